@@ -180,6 +180,14 @@ impl<'de> Deserialize<'de> for Shown {
     }
 }
 
+/// A struct whose *second* field carries the reserved name.
+#[derive(Serialize, Deserialize, PartialEq, Debug, Clone)]
+pub struct TokenSecond {
+    a: u8,
+    #[serde(rename = "$serde_json::private::Number")]
+    token: String,
+}
+
 pub fn pumped(rep: &mut Report, tier: Tier) {
     let cap = tier.pick(4097usize, 65537);
     let ns = refmodel::pump::thresholds(cap);
@@ -561,6 +569,14 @@ pub fn run(rep: &mut Report, tier: Tier) {
         key_context(&NewKey(s.to_string()), "BTreeMap<newtype(String),_>", &mut t);
     }
     check_datum(&BTreeMap::from([("a".to_string(), 1u8), (TOKEN.to_string(), 2u8)]), "BTreeMap<String,_> with the token as a later key", false, &mut t);
+    // (a BTreeMap iterates in key order and "$..." sorts before "a": keys that sort before the
+    // token are needed to really put it in a later position)
+    for first in ["", " ", "!", "#comment", "$", "$serde_json::private::Numbe"] {
+        check_datum(&BTreeMap::from([(first.to_string(), 1u8), (TOKEN.to_string(), 2u8)]), "BTreeMap<String,u8> with the token as the second key", false, &mut t);
+        check_datum(&BTreeMap::from([(first.to_string(), "1".to_string()), (TOKEN.to_string(), "2".to_string())]), "BTreeMap<String,String> with the token as the second key", false, &mut t);
+        check_datum(&St { f: BTreeMap::from([(first.to_string(), vec![Some(true)]), (TOKEN.to_string(), vec![None])]), g: 1 }, "struct field holding a map with the token as the second key", false, &mut t);
+    }
+    check_datum(&TokenSecond { a: 1, token: "2.50".to_string() }, "struct whose second field is renamed to the token", false, &mut t);
     representations(&mut t);
     rep.absorb(t);
 
